@@ -13,7 +13,7 @@ EXPLANATION = (
     "increment / increment_hashed_key exactly one of Bloom::add and CountMinSketch::increment runs, with the same hash - the sketch exactly "
     "when the doorkeeper already contained the key - followed by exactly one try_reset; increment_keys / increment_hashed_keys delegate per "
     "key. R2 reset schedule (all-writers of w): w is written only as w + 1 (try_reset), and as 0 together with doorkeeper.clear() and "
-    "ctr.reset() (reset) or ctr.clear() (clear); try_reset resets iff w + 1 >= samples; samples is validated >= 1. R3 estimate shape: "
+    "ctr.reset() (reset) or ctr.clear() (clear); try_reset resets iff w + 1 >= samples; every path of reset and of clear zeroes w; samples is validated >= 1. R3 estimate shape: "
     "estimate(_hashed_key) = ctr.estimate(h) + [doorkeeper.contains(h)] with the same h. R4 comparison consistency: lt/le/gt/ge/eq return "
     "OP(E(a), E(b)) where on every path E(x) is exactly that estimate expression of x and OP matches the name. R5 no false negatives, "
     "structurally: Bloom::add and Bloom::contains probe the same index expression; contains_or_add adds exactly when contains is false. R6 the "
@@ -214,6 +214,21 @@ def r2(cx, chk, cfg, F):
             break
     else:
         chk.ob("C11.R2", cfg + ":try_reset-counts", "every path of try_reset starts by w := w + 1")
+    # the explicit wipes are unconditional: every path of reset / clear zeroes w (the zero store itself is judged above: it comes with the
+    # doorkeeper and the sketch). A `w == 0` shortcut is not a no-op: w is also 0 right after an automatic reset, with a non-empty sketch.
+    for nm in ("reset", "clear"):
+        fw = F.find(T + "::" + nm)
+        n = 0
+        for p in cx.paths(cfg, fw["path"], policy=Shallow(), tag="shallow"):
+            n += 1
+            if not any(e["ev"] == "store" and e["loc"] == ("H", SELF, ("w",)) and e["val"] == ("const", "usize", "0") for e in p.events):
+                chk.violation("C11.R2", "%s|not-total" % nm, "a path of TinyLFU::%s returns without zeroing w (and with it the doorkeeper and the sketch)" % nm,
+                              fw["span"]["file"], fw["span"]["lo"], fw["q"], None, cfg)
+                break
+        else:
+            if not n:
+                raise AnalysisError("C11: no path through TinyLFU::%s" % nm)
+            chk.ob("C11.R2", "%s:%s-total" % (cfg, nm), "every path of %s zeroes w" % nm, {"paths": n})
     have = set(k for ks in kinds.values() for k in ks)
     for need in ("inc", "zero+reset", "zero+clear"):
         if need in have:
@@ -295,6 +310,21 @@ def r3r4(cx, chk, cfg, F):
         for p in tpaths(cx, cfg, f):
             n += 1
             rv = p.ret
+            if isinstance(rv, tuple) and rv[0] == "const" and rv[1] == "bool":
+                # the three-way form (`estimate(a).cmp(&estimate(b))` tested against an Ordering): the verdict is a constant on each path,
+                # and the path's comparisons of the two estimates must decide `op` that way
+                facts = cond_facts(p)
+                pairs = set()
+                for c, t, e in facts:
+                    if isinstance(c, tuple) and c[0] == "bin" and c[1] in ("Lt", "Le", "Gt", "Ge", "Eq", "Ne"):
+                        for x, y in ((c[2], c[3]), (c[3], c[2])):
+                            if est_expr(p, x, ("param", 2, False), False) is None and est_expr(p, y, ("param", 3, False), False) is None:
+                                pairs.add((x, y))
+                tv = [truth_of(facts, op, x, y) for x, y in pairs]
+                if len(pairs) == 1 and tv[0] is not None:
+                    if tv[0] != (rv[2] != "0"):
+                        errs.add("a path on which estimate(a) %s estimate(b) is %s returns %s" % (op, tv[0], rv[2] != "0"))
+                    continue
             if not (isinstance(rv, tuple) and rv[0] == "bin" and rv[1] == op):
                 if isinstance(rv, tuple) and rv[0] == "bin" and rv[1] in ops.values():
                     errs.add("returns `%s` of the two values; %s must apply `%s`" % (rv[1], name, op))
@@ -366,7 +396,7 @@ def r5(cx, chk, cfg, F):
             continue
         r = ("call", c[0]["id"], c[0]["q"])
         t = [tt for cc, tt, e in cond_facts(p) if cc == r]
-        if not t or bool(a) == t[0] or (a and a[0]["args"][1] != c[0]["args"][1]) or p.ret != ("const", "bool", "0" if t[0] else "1"):
+        if not t or bool(a) == t[0] or (a and a[0]["args"][1] != c[0]["args"][1]) or p.ret not in (("const", "bool", "0" if t[0] else "1"), ("un", "Not", r)):
             good = False
     if good:
         chk.ob("C11.R5", cfg + ":contains_or_add", "adds exactly when contains is false and reports it")
